@@ -548,13 +548,15 @@ def draw_common_options(rng, fp, force=()):
     u = rng.random()
     if "scale_only" in force:
         u = 0.5 + 0.5 * u  # no Umeyama rotation: scale correction alone (optionally with origin alignment)
+    if "align" in force:
+        u = 0.29 * u
     if u < .3:
         o["align"] = True
         argv.append("--align" if rng.random() < .5 else "-a")
     elif u < .45 or ("scale_only" in force and u < .7):
         o["align_origin"] = True
         argv.append("--align_origin")
-    if rng.random() < .35 or "scale_only" in force:
+    if rng.random() < .35 or "scale_only" in force or "scale" in force:
         o["correct_scale"] = True
         argv.append("--correct_scale" if rng.random() < .5 else "-s")
     if (o["align"] or o["correct_scale"]) and (rng.random() < .4 or "n_to_align" in force):
@@ -637,6 +639,45 @@ CFG_VALUED = {"--n_to_align": ("n_to_align", int), "--downsample": ("downsample"
               "--project_to_plane": ("project_to_plane", str), "-r": ("pose_relation", str), "--pose_relation": ("pose_relation", str),
               "--delta": ("delta", float), "-d": ("delta", float), "--delta_unit": ("delta_unit", str), "-u": ("delta_unit", str),
               "--delta_tol": ("delta_tol", float)}
+
+
+GROUPS = ["ap", "pa", "as", "sa", "va", "av", "vap", "pas", "sp", "apv", "sv", "asp"]
+
+
+def group_short_flags(rng, argv, o, force=None, p=.3):
+    """
+    evo's documentation groups one-letter flags (README: -va, demos: -as): the one-letter flags of
+    this command line spelled as ONE token, optionally together with -v (verbose) and -p (plot),
+    which change no value.  `force` names the exact group wanted (e.g. "ap": needs -a).
+    """
+    argv = list(argv)
+    if force:
+        for short, long_ in (("-a", "--align"), ("-s", "--correct_scale"), ("-v", "--verbose")):
+            src, dst = (long_, short) if short[1] in force else (short, long_)
+            if src in argv:
+                argv[argv.index(src)] = dst
+    shorts = [i for i, t in enumerate(argv) if t in ("-a", "-s", "-v")]
+    letters = [argv[i][1] for i in shorts]
+    if force:
+        if not set(letters) <= set(force) or not (set(force) - set("pv")) <= set(letters):
+            return argv  # (the wanted group would change the algorithm options of this case)
+        letters = list(force)
+    else:
+        if not shorts or rng.random() >= p:
+            return argv
+        if "v" not in letters and rng.random() < .3:
+            letters.append("v")
+        if rng.random() < .5:
+            letters.append("p")
+        if rng.random() < .5:
+            rng.shuffle(letters)
+    if not shorts:
+        return argv
+    if "p" in letters:
+        o["plot"] = True
+    out = [t for i, t in enumerate(argv) if i not in shorts]
+    out.insert(shorts[0], "-" + "".join(letters))
+    return out
 
 
 def move_to_config(rng, argv, work, n_positional, name="options.json", p_move=.6):
@@ -834,6 +875,7 @@ def ape_cli(run, case, rng, work):
         unit = ["mm", "cm", "m", "km", "deg", "rad"][rng.integers(6)]
         argv += ["--change_unit", unit]
     argv += ["--save_results", "out.zip", "--no_warnings"]
+    argv = group_short_flags(rng, argv, o, force=case.get("group"))
     if not case.get("exe") and rng.random() < .15:
         argv = move_to_config(rng, argv, work, 3)
     if case.get("exe"):
@@ -956,6 +998,10 @@ def main(run):
         k_cli(run, run.case("cli", 10**6 + i, real=True))
     for i in run.mine({"quick": 6, "thorough": 60}[run.tier]):
         k_cli(run, run.case("cli", 2 * 10**6 + i, exe=True))
+    for i in run.mine({"quick": 24, "thorough": 240}[run.tier]):
+        g = GROUPS[i % len(GROUPS)]
+        k_cli(run, run.case("cli", 3 * 10**6 + i, group=g,
+                            force_options=(["align"] if "a" in g else []) + (["scale"] if "s" in g else [])))
     run.need("concurrent rounds: APE evaluation", "ape() on fresh objects == definition on the documented processing", "L3 runs through the real executable", "session: every evaluation == definition on its own associated pair",
              "L2 evaluations with and without projection in one session","APE value == definition applied to its own pose pair", "APE: unequal lengths refused",
              "APE unchanged when ref/est swapped", "APE unchanged under a common rigid motion",
